@@ -200,7 +200,9 @@ func (s *Storage) removeLeastRecent(name string, maximum int) error {
 	errs := []error{}
 	for _, rel := range toDelete {
 		err = s.deleteReleaseVersion(name, rel.Version)
-		if err != nil {
+		// A record that is already gone (pruned by a concurrent operation)
+		// needs no pruning.
+		if err != nil && !errors.Is(err, driver.ErrReleaseNotFound) {
 			errs = append(errs, err)
 		}
 	}
